@@ -100,6 +100,15 @@ def run_case(case, opts):
         s["d"] = domain_digest(dom)
         ev.append({"c": "Snap", "snap": s})
 
+    parsers = {}
+
+    def traj_parser(problem):
+        """one TrajectoryParser object per (domain, problem) of the history, used for every parse"""
+        key = id(problem)
+        if key not in parsers:
+            parsers[key] = TrajectoryParser(dom, problem)
+        return parsers[key]
+
     exporter = {False: TrajectoryExporter(dom, allow_invalid_actions=False), True: TrajectoryExporter(dom, allow_invalid_actions=True)}
     for _ in range(case["n_ops"]):
         kind = rng.choices(KINDS, weights=WEIGHTS[case.get("weights", "mixed")])[0]
@@ -264,7 +273,7 @@ def run_case(case, opts):
                 text = "".join(TrajectoryExporter.export(runs[rh]))
                 p = pylib.write_tmp(text, ".trajectory")
                 try:
-                    obs = TrajectoryParser(dom, run_prob[rh] if with_problem else None).parse_trajectory(p)
+                    obs = traj_parser(run_prob[rh] if with_problem else None).parse_trajectory(p)
                 finally:
                     os.unlink(p)
                 comps = [{"pre": pylib.project_state(c.previous_state),
